@@ -75,6 +75,11 @@ func NewThrowEventSatisfier(catchEventElement schema.ThrowEventInterface, eventD
 func (satisfier *ThrowEventSatisfier) Satisfy(ev event.IEvent) (matched bool, chain int) {
 	chain = EventDidNotMatch
 	for i := range satisfier.eventDefinitionInstances {
+		// a definition the builder had no instance for (a builder may answer nil for
+		// definitions it does not know): no event matches it
+		if satisfier.eventDefinitionInstances[i] == nil {
+			continue
+		}
 		if ev.MatchesEventInstance(satisfier.eventDefinitionInstances[i]) {
 			if satisfier.len == 1 {
 				chain = 0
